@@ -68,6 +68,14 @@ def check(ix, rep):
     # 4. update() is a function of the operator's own state and the operands
     n = pure.pure_updates(ix, rep, sorted(set(ops.values()), key=lambda c: c.qual))
     rep.floor('operation update() methods checked for hidden inputs', n, 28)
+    # the period the online monitor counts its windows in is the one the user configured, also after reset()
+    from sa.rules import units
+    nc = units.check_interpreter_ownership(ix, rep)
+    rep.floor('interpreter ownership obligations of the specification classes', nc, 4)
+    # the online operator table and the memo are keyed by node.name: the name has to determine the node
+    from sa.rules import nodename
+    nn = nodename.check(ix, rep, 'online-key')
+    rep.floor('name obligations (parts of the printed name, skeletons)', nn, 120)
     explanation = (
         'R-STEP: operators are keyed by printed node name and sub-spec nodes are shared, so the update visitor must memoise per '
         'update under that very key and renew the memo once per update(); the rule checks key agreement (construction visitor, '
